@@ -663,6 +663,22 @@ func checkPolicyReadOnly(e *Env, p *load.Program, rule string) {
 	bad := 0
 	sort.Slice(a.Writes, func(i, j int) bool { return a.Writes[i].Instr.Pos() < a.Writes[j].Instr.Pos() })
 	for _, w := range a.Writes {
+		if w.Obj.Kind == effects.Global {
+			// the compiler as a function of the policy: E1's schema is extracted from the generator's code on the
+			// assumption that nothing but the policy (and the constant tables) decides what is emitted. A write to
+			// package-level state on the compile path - a cache of assembled groups, a counter, a "last architecture" -
+			// makes the program compiled for one policy depend on what was compiled before (seed C05g: a cache whose key
+			// prints the action with %s, so two unnamed actions share one entry and the second policy returns the
+			// first one's action)
+			key := load.FuncName(w.Fn) + "/package-state/" + w.What
+			if seen[key] {
+				continue
+			}
+			seen[key] = true
+			bad++
+			r.Bad(rule, key, p.Pos(w.Instr.Pos()), fmt.Sprintf("%s in %s may write package-level state while a policy is compiled: what is emitted for a policy can then depend on the policies compiled before it, which the label-level argument (one policy -> one program) does not cover", w.What, load.FuncName(w.Fn)))
+			continue
+		}
 		if w.Obj.Kind != effects.Caller {
 			continue
 		}
@@ -687,6 +703,6 @@ func checkPolicyReadOnly(e *Env, p *load.Program, rule string) {
 		r.Unknown(rule, key, p.Pos(u.Instr.Pos()), u.What)
 	}
 	if bad == 0 {
-		r.OK(rule, "policy-not-written-while-compiled", "", fmt.Sprintf("%d stores/map updates/appends in %d functions reachable from the compile entry points: none may write memory reachable from the policy", a.NStores, len(a.Funcs)))
+		r.OK(rule, "policy-not-written-while-compiled", "", fmt.Sprintf("%d stores/map updates/appends in %d functions reachable from the compile entry points: none may write memory reachable from the policy or package-level state", a.NStores, len(a.Funcs)))
 	}
 }
